@@ -376,8 +376,8 @@ Definition parseline (line : str) : res triple :=
   end.
 
 (* readline: lines end in CRLF, CR or LF; an unterminated last line counts unless it is all whitespace
-   (str.isspace - the same characters as \s).  The 2048-character buffer is not modelled (a CRLF cut in
-   two by a buffer boundary only produces an empty line). *)
+   (str.isspace - the same characters as \s).  This is the reader with an unbounded buffer; the buffered one
+   follows (parse_doc_buf), Proofs.v shows that written documents are read alike by both. *)
 Fixpoint split_lines (cur : str) (s : str) : list str :=
   match s with
   | [] => match cur with [] => [] | _ => if forallb is_space cur then [] else [rev cur] end
@@ -403,6 +403,63 @@ Fixpoint parse_lines (ls : list str) : option (list triple) :=
   end.
 
 Definition parse_doc (s : str) : option (list triple) := parse_lines (split_lines [] s).
+
+(* readline as written: a buffer that is refilled bufsiz characters at a time from the file; r_line.match on the
+   buffer; when nothing matches, one more chunk is appended; at end of file a non-blank remainder gets a final LF,
+   a blank one (str.isspace) ends the input.  A CR at the very end of the buffer is taken as a line end on its own, so
+   a CRLF cut by a chunk boundary yields one extra empty line (which parseline skips).  [fuel] bounds the number of
+   chunk reads of one call / the number of lines; parse_doc_buf supplies enough. *)
+Fixpoint find_line (b : str) : option (str * str) :=       (* r_line.match: (group 1, buffer after the match) *)
+  match b with
+  | [] => None
+  | c :: r =>
+    if c =? 10 then Some ([], r)
+    else if c =? 13 then
+      match r with
+      | d :: r' => if d =? 10 then Some ([], r') else Some ([], r)
+      | [] => Some ([], [])
+      end
+    else match find_line r with Some (l, t) => Some (c :: l, t) | None => None end
+  end.
+
+Inductive rl_result := RlFuel | RlEof | RlLine (line buf file : str).
+
+Fixpoint readline (n fuel : nat) (buf file : str) : rl_result :=
+  match find_line buf with
+  | Some (l, t) => RlLine l t file
+  | None =>
+    match fuel with
+    | O => RlFuel
+    | S k =>
+      let ch := firstn n file in
+      match ch with
+      | [] => match buf with
+              | [] => RlEof
+              | _ => if forallb is_space buf then RlEof else readline n k (buf ++ [10]) file
+              end
+      | _ :: _ => readline n k (buf ++ ch) (skipn n file)
+      end
+    end
+  end.
+
+Fixpoint read_all (n fuel : nat) (buf file : str) : option (list str) :=
+  match fuel with
+  | O => None
+  | S k =>
+    match readline n (S (S (length file))) buf file with
+    | RlFuel => None
+    | RlEof => Some []
+    | RlLine l b f => match read_all n k b f with Some ls => Some (l :: ls) | None => None end
+    end
+  end.
+
+Definition bufsiz : nat := 2048.
+
+Definition parse_doc_buf (n : nat) (s : str) : option (list triple) :=
+  match read_all n (S (S (length s))) [] s with
+  | Some ls => parse_lines ls
+  | None => None
+  end.
 
 (* ---- what rdflib accepts when writing, plus ''the IRI has a scheme'' *)
 Definition has_scheme (u : str) : bool :=
@@ -546,11 +603,11 @@ Inductive nt_obs :=
 Definition nt_model (c : nt_case) : nt_obs :=
   match c with
   | NtTriple t => match nt_row t with
-                  | Some s => ObsTriple (Some s) (parse_doc s)
+                  | Some s => ObsTriple (Some s) (parse_doc_buf bufsiz s)
                   | None => ObsTriple None None
                   end
   | NtUnquote s => ObsUnquote (unquote s)
-  | NtDoc s => ObsDoc (parse_doc s)
+  | NtDoc s => ObsDoc (parse_doc_buf bufsiz s)
   end.
 
 Definition nt_obs_eqb (a b : nt_obs) : bool :=
